@@ -2,7 +2,7 @@
 From Coq Require Import List Arith.
 Require Import JV.Model.ParallelCore JV.Proofs.ParallelInv1 JV.Proofs.ParallelTrk JV.Proofs.ParallelInv4 JV.Proofs.ParallelInv5
                JV.Proofs.ParallelInv6 JV.Proofs.ParallelMisc.
-Require Import JV.Model.ParallelSync JV.Proofs.SyncFrame JV.Proofs.SyncThm.
+Require Import JV.Model.ParallelSync JV.Proofs.SyncFrame JV.Proofs.SyncThm JV.Proofs.SyncProgress.
 Import ListNotations.
 
 (* a completion callback of an earlier call changes nothing but the in-flight bookkeeping *)
@@ -89,3 +89,11 @@ Theorem C04_sync_input_failure_is_raised : forall s, sreach s -> exception (base
   phase (base s) = Retrieving -> exists e, snd (adv_s (base s)) = Some (SRaised e).
 Proof. exact sync_input_failure_is_raised. Qed.
 Print Assumptions C04_sync_input_failure_is_raised.
+
+(* no hang: a caller that polls (it can neither return, raise nor block on a job) waits for a completion
+   callback of a batch of THIS call that the backend still owes *)
+Theorem C04_sync_waiting_means_callback_due : forall s, sreach s -> blk s = None -> phase (base s) = Retrieving ->
+  snd (adv_s (base s)) = None -> blk (fst (adv_s (base s))) = None ->
+  aborting (base s) = false /\ exists t, is_cur (base s) t = true /\ In t (inflight (base s)).
+Proof. exact sync_waiting_means_callback_due. Qed.
+Print Assumptions C04_sync_waiting_means_callback_due.
